@@ -327,6 +327,52 @@ func (e *Engine) mapLookup(s *State, m MapV, key Value, valT types.Type) (Value,
 	return res, found
 }
 
+type mapAlt struct {
+	cond  *Term
+	val   Value
+	found *Term
+}
+
+// mapLookupAlts: like mapLookup, but when the candidate values cannot be merged into one ite-value the
+// lookup is returned as several alternatives (mutually exclusive conditions) for the caller to fork on.
+func (e *Engine) mapLookupAlts(s *State, m MapV, key Value, valT types.Type) []mapAlt {
+	zero := e.zero(valT)
+	if m.Obj == 0 {
+		return []mapAlt{{e.tc.True, zero, e.tc.False}}
+	}
+	mo := e.mapObj(s, m)
+	var alts []mapAlt
+	none := e.tc.True
+	for _, en := range mo.E {
+		hit := e.tc.And(en.Present, e.keyEq(en.K, key))
+		if hit.IsFalse() {
+			continue
+		}
+		alts = append(alts, mapAlt{e.tc.And(none, hit), en.V, e.tc.True})
+		none = e.tc.And(none, e.tc.Not(hit))
+	}
+	alts = append(alts, mapAlt{none, zero, e.tc.False})
+	// merge what can be merged
+	var out []mapAlt
+	for _, a := range alts {
+		if a.cond.IsFalse() {
+			continue
+		}
+		merged := false
+		for i := range out {
+			if mv, ok := e.mergeVal(a.cond, a.val, out[i].val); ok {
+				out[i] = mapAlt{e.tc.Or(out[i].cond, a.cond), mv, e.tc.Ite(a.cond, a.found, out[i].found)}
+				merged = true
+				break
+			}
+		}
+		if !merged {
+			out = append(out, a)
+		}
+	}
+	return out
+}
+
 func (e *Engine) mapUpdate(s *State, m MapV, key, val Value) {
 	mo := e.mapObj(s, m)
 	out := &MapObj{KeyT: mo.KeyT, ValT: mo.ValT}
@@ -349,6 +395,10 @@ func (e *Engine) mapUpdate(s *State, m MapV, key, val Value) {
 		}
 		// symbolic: conditional overwrite when the key matches a present entry
 		hit := e.tc.And(eq, en.Present)
+		if !e.feasible(s, hit, "map key alias") {
+			out.E = append(out.E, en)
+			continue
+		}
 		nv, ok := e.mergeVal(hit, val, en.V)
 		if !ok {
 			panic(unsupported("map update over values of different shape"))
